@@ -630,6 +630,18 @@ m('settuple-stores-size-as-offset', ['C15'], TP, """	tp.Copy(offsetTupleOffset+s
 m('empty-log-restarts-lsn-counter', ['C20', 'C01'], SD, """			if lsnOnPages := greatestLSNOfTablePages(c, shi.bpm); lsnOnPages > 0 {
 				shi.GetLogManager().SetNextLSN(lsnOnPages + 1)""", """			if lsnOnPages := greatestLSNOfTablePages(c, shi.bpm); lsnOnPages > 0 {
 				shi.GetLogManager().SetNextLSN(greatestLSN + 1)""", ['C20-R5 [NewSamehadaDB:lsn-restored-from-pages-when-log-is-empty'])
+m('undo-of-insert-not-guarded', ['C20', 'C02'], LR, """				if slotNum := logRecord.InsertRID.GetSlotNum(); slotNum < pg.GetTupleCount() && pg.GetTupleSize(slotNum) != 0 {
+					pg.ApplyDelete(&logRecord.InsertRID, txn, logRecov.logManager)
+				}""", """				pg.ApplyDelete(&logRecord.InsertRID, txn, logRecov.logManager)""", ['C20-R6 [Undo:INSERT:removed-only-while-present]'])
+m('undo-of-applied-delete-not-guarded', ['C20', 'C02'], LR, """				if slotNum >= pg.GetTupleCount() || pg.GetTupleSize(slotNum) == 0 {
+					logRecord.DeleteTuple.SetRID(&logRecord.DeleteRID)
+					pg.InsertTuple(&logRecord.DeleteTuple, logRecov.logManager, nil, txn)
+				}""", """				_ = slotNum
+				logRecord.DeleteTuple.SetRID(&logRecord.DeleteRID)
+				pg.InsertTuple(&logRecord.DeleteTuple, logRecov.logManager, nil, txn)""", ['C20-R6 [Undo:APPLYDELETE:restored-only-while-absent]'])
+m('recovery-insert-ignores-recorded-slot', ['C20'], TP, """		if recordedSlot == tp.GetTupleCount() || (recordedSlot < tp.GetTupleCount() && tp.GetTupleSize(recordedSlot) == 0) {
+			slot = recordedSlot
+		}""", """		_ = recordedSlot""", ['C20-R6 [TablePage.InsertTuple:recorded-slot-honoured-in-recovery]'])
 # drop the one that needs a helper that does not exist
 M = [x for x in M if x['id'] != 'insert-executor-unlocks-early']
 os.chdir(os.path.dirname(os.path.abspath(__file__)) + '/..')
